@@ -53,8 +53,14 @@ def _ff_case(kind, vector):
         power = kind in ('j2', 'j4', 'j6')
         if vector:
             qs = [E.real('Q%d' % i, lo=0, hi=30) for i in range(2)]
-            out = meth(np.array(qs, dtype=object if E.symbolic else float))
+            qarr = np.array(qs, dtype=object if E.symbolic else float)
+            out = meth(qarr)
             E.fact('vector_shape', isinstance(out, np.ndarray) and out.shape == (2,))
+            # the caller's array is only read: asking again with the same array gives the same answer
+            again = meth(qarr)
+            for i, q in enumerate(qs):
+                E.eq('caller_array_unchanged[%d]' % i, qarr[i], q)
+                E.eq('same_answer_again[%d]' % i, again[i], out[i])
             for i, q in enumerate(qs):
                 w = _oracle(E, coeffs, q, power)
                 if w is None:
@@ -138,6 +144,40 @@ def _ground_case(case, tier, seed):
                 else:
                     res['violations'].append(dict(case=case.name, claim='Q0_limit[%s%+d %s]' % (el.symbol, charge, kind), values={},
                                                   observed=[v, 1 if kind == 'j0' else 0], how='concrete'))
+    # magnetic coefficient sets against an independent reading of the embedded CFML text
+    from periodictable import magnetic_ff as mff
+    want_ff = {}
+    for sect, label, body in re.findall(r'(Magnetic_(?:Form|j2|j4|j6))\(\s*\d+\)\s*=\s*Magnetic_Form_Type\("([^"]*)",\s*(?:&\s*)?\(/([^/]*)/\)', mff.CFML_DATA):
+        if sect == 'Magnetic_Form':
+            kind, label = ('j0' if label[0] == 'M' else 'J'), label[1:]
+        else:
+            kind = sect[len('Magnetic_'):]
+        m = re.fullmatch(r'([A-Z]{1,2})(\d)\s*', label)
+        if not m:
+            res['inconclusive'].append(dict(case=case.name, claim='cfml_label_readable', why='label %r' % label))
+            continue
+        want_ff.setdefault((m.group(1).capitalize(), int(m.group(2))), {})[kind] = tuple(float(x) for x in body.split(','))
+    n_tab = 0
+    for el in pt.elements:
+        ffs = getattr(el, 'magnetic_ff', None) or {}
+        charges = sorted(q for (s_, q) in want_ff if s_ == el.symbol)
+        res['claims'] += 1
+        n_tab += 1
+        if sorted(ffs) == charges:
+            res['discharged'] += 1
+        else:
+            res['violations'].append(dict(case=case.name, claim='magnetic_charge_states[%s]' % el.symbol, values={}, observed=[repr(sorted(ffs)), repr(charges)], how='concrete'))
+            continue
+        for q in charges:
+            w = want_ff[(el.symbol, q)]
+            got = {k: tuple(getattr(ffs[q], k)) for k in ('j0', 'J', 'j2', 'j4', 'j6') if hasattr(ffs[q], k)}
+            res['claims'] += 1
+            n_tab += 1
+            if got == w:
+                res['discharged'] += 1
+            else:
+                res['violations'].append(dict(case=case.name, claim='magnetic_coefficients[%s%+d]' % (el.symbol, q), values={},
+                                              observed=[repr(got)[:200], repr(w)[:200]], how='concrete'))
     cromermann.getCMformula('H')
     n_cm = 0
     for smbl, f in cromermann._cmformulas.items():
@@ -225,7 +265,7 @@ def _ground_case(case, tier, seed):
         else:
             res['violations'].append(dict(case=case.name, claim='emission_lines[%s]' % el.symbol, values={}, observed=[repr((ka, kb)), repr(lines.get(el.symbol))], how='concrete'))
     res['queries'] = res['distinct'] = res['claims']
-    res['samples'] = [dict(magnetic_coefficient_sets=n_ff, cromer_mann_entries=n_cm, f0_via_ion_api=n_api, covalent_radii=n_rad, emission_rows=n_lines)]
+    res['samples'] = [dict(magnetic_coefficient_sets=n_ff, magnetic_table_entries=n_tab, cromer_mann_entries=n_cm, f0_via_ion_api=n_api, covalent_radii=n_rad, emission_rows=n_lines)]
     res['violations'] = res['violations'][:5]
     return res
 
